@@ -11,7 +11,7 @@ from ..symstr import TokStr, make_tokens, model_value
 A13 = dech.A_CORE + ["[nop]", "."]
 
 
-class LazyNoNop(list):
+class LazyNoNop(symstr.TokFrag):
     """list of tokens that skips [nop] on demand (y = x with the [nop]s deleted)"""
     def __iter__(self):
         for t in list.__iter__(self):
@@ -21,8 +21,10 @@ class LazyNoNop(list):
 
 
 class TokStrNoNop(TokStr):
-    def split(self, sep):
-        return [LazyNoNop(p) for p in TokStr.split(self, sep)]
+    FRAG = LazyNoNop
+
+    def as_plain_str(self):
+        return "".join(x for x in (t if isinstance(t, str) else str(t) for t in self.toks) if x != "[nop]")
 
 
 def _norm(r):
